@@ -306,6 +306,9 @@ func TestCheck(t *testing.T) {
 	// ---- layer B ---- (before the real-block part of layer A so that a deadline never cuts it)
 	bstat := runAtomic(c)
 
+	// ---- layer C: native setter then fault (native caches) ----
+	ccov, cexecs := c.runNatives()
+
 	// ---- layer A, multi-transaction blocks (one VM is reused within a block) ----
 	nMulti := c.runMulti()
 	fmt.Printf("layer A multi-transaction blocks: %d blocks, %.1fs\n", nMulti, r.Elapsed())
@@ -350,14 +353,15 @@ func TestCheck(t *testing.T) {
 	cov := map[string]any{
 		"states":                         c.states.Len(),
 		"transitions":                    int(c.calls.Get()),
-		"traces_validated_against_impl":  int(c.execs.Get()) + bstat.execs,
+		"traces_validated_against_impl":  int(c.execs.Get()) + bstat.execs + cexecs,
 		"layerA_programs":                len(all),
 		"layerA_programs_in_real_blocks": len(blk),
 		"layerA_spaces":                  spaceInfo,
 		"layerA_test_outcomes": map[string]int64{"halt_callee_changes_undone": undone.Get(), "halt_callee_failed_nothing_to_undo": restoredNoop.Get(),
 			"halt_no_failure": plain.Get(), "fault": faulted.Get()},
-		"layerA_block_outcomes": map[string]int64{"halt_callee_changes_undone": bUndone.Get(), "fault": bFault.Get(), "halt_other": bHalt.Get()},
-		"layerB":                bstat.cov,
+		"layerA_block_outcomes":           map[string]int64{"halt_callee_changes_undone": bUndone.Get(), "fault": bFault.Get(), "halt_other": bHalt.Get()},
+		"layerB":                          bstat.cov,
+		"layerC_native_setter_then_fault": ccov,
 		"rule": "states = distinct final model states; transitions = contract calls (entry, RUN, native, payment callback) executed by the model; " +
 			"every program is executed on the real code and compared in VM state, op log, notifications, storage of all instances, GAS/NEO balances, Policy fee",
 	}
